@@ -55,7 +55,7 @@ def get_evaluable_architecture(
 
     if exclusions is None:
         # the default exclusions only apply if the user did not specify exclusions of their own, of either kind
-        exclusions = () if regex_exclusions else DEFAULT_EXCLUSIONS
+        exclusions = () if regex_exclusions is not None else DEFAULT_EXCLUSIONS
 
     if regex_exclusions and exclusions:
         raise ImproperlyConfigured(
